@@ -2,6 +2,7 @@
 import collections
 import copy
 import json
+import re
 
 from harness import core
 from harness import gristenv as G
@@ -134,7 +135,7 @@ def pending_deltas(e):
   return out
 
 
-def run_bundle(ld, bundle, fault_at=None, hooks=None):
+def run_bundle(ld, bundle, fault_at=None, hooks=None, on_fail=None):
   """Apply `bundle` to ld.e under the recorder; returns a Run with the verdicts of the C04 oracle when it raised."""
   e = ld.e
   r = Run()
@@ -156,6 +157,7 @@ def run_bundle(ld, bundle, fault_at=None, hooks=None):
   r.diff_cells = []        # (table, column) in which the tables differ from before
   r.emitted_cells = []     # (table, column) written by the following Calculate
   if r.raised is not None:
+    r.on_fail = on_fail(e) if on_fail is not None else None     # before the oracle's Calculate touches anything
     r.pending = pending_deltas(e)
     after = G.snapshot(e)
     if after != r.before:
@@ -203,6 +205,7 @@ def diff_cells(a, b):
 # ---------------------------------------------------------------------------------------------------------------
 # where did the fault strike, and which root cause explains a trace
 
+SORTED_LOOKUP = re.compile(r'order_by|sort_by|PREVIOUS|NEXT|RANK')
 SCHEMA_ACTIONS = ('AddColumn', 'RemoveColumn', 'RenameColumn', 'ModifyColumn', 'AddTable', 'RemoveTable', 'RenameTable')
 
 
@@ -226,7 +229,7 @@ def locate(run, idx):
   done_docs = []
   calc_cells = []
   for (j, n, dc, ph, det) in run.events[:idx]:
-    if dc is None and n == 'set':
+    if dc is None and n == 'set' and not det[4]:
       calc_cells.append((det[0], det[1]))
   for d in run.docs:
     if d['first'] < idx and (doc is None or d['serial'] != doc):
@@ -272,6 +275,15 @@ def classify(loc, run):
     # formula cells recomputed inside the bundle (bring_col_up_to_date) or saved into the summary (RemoveColumn of a
     # formula column, doModifyColumn conversions): their deltas sit in out_actions.summary, which rollback drops
     return 'pending-calc-delta-survives-rollback'
+  replaced = [d for d in loc['done_docs'] if d in ('ModifyColumn', 'RenameColumn', 'RemoveColumn', 'RenameTable',
+                                                    'RemoveTable')]
+  if replaced and not run.diff_cells and run.emitted_cells and all(
+      c is not None and SORTED_LOOKUP.search((run.before_schema.get(t, {}).get(c) or ('', 0, ''))[2] or '')
+      for (t, c) in run.emitted_cells):
+    # not a rollback defect: a sorted lookup (order_by / PREVIOUS / NEXT / RANK) keeps the sort key of a Column
+    # object that ModifyColumn/RenameColumn destroyed (also after a SUCCESSFUL ModifyColumn: C05/C13); the rollback
+    # replaces the column object once more and the next Calculate re-reads the stale order
+    return 'sorted-lookup-keeps-destroyed-column-object'
   return 'unclassified-trace-after-failure'
 
 
@@ -318,8 +330,12 @@ class TieCollector(object):
         if pname == 'undo.append':
           usigs.append(enc.action_sig(detail))
       after = enc.doc(engine, b['tables'])
-      term = '(%s, %s, %s, %s, %s, %s, %s)' % (b['doc'], b['action'], b['ord'], RM.Enc.sigs_lit(sigs), after,
-                                            RM.Enc.sigs_lit(usigs), core.boollit(completed))
+      # a ModifyColumn that changes the type re-stores every cell through the new Column class's set(), whose
+      # normalisation (Ref/RefList clean-up, Bool, ChoiceList) is outside the model: compare steps and undo only
+      cmp_state = not (name == 'ModifyColumn' and 'type' in args[2])
+      term = '(%s, %s, %s, %s, %s, %s, %s, %s)' % (b['doc'], b['action'], b['ord'], RM.Enc.sigs_lit(sigs), after,
+                                                RM.Enc.sigs_lit(usigs), core.boollit(completed),
+                                                core.boollit(cmp_state))
       self.per_kind[name] += 1
       self.cases.append((term, '%s%r completed=%s' % (name, tuple(args)[:2], completed)))
       return None
@@ -327,20 +343,107 @@ class TieCollector(object):
 
 
 DOC_TIE_CHECK = (
-  'fun c : doc * action * (Z -> list Z) * list (list Z) * doc * list (list Z) * bool => '
-  'let \'(d, a, ord, sigs, d2, usigs, completed) := c in '
+  'fun c : doc * action * (Z -> list Z) * list (list Z) * doc * list (list Z) * bool * bool => '
+  'let \'(d, a, ord, sigs, d2, usigs, completed, cmp_state) := c in '
   'let steps := doc_steps ord d a in '
   'bool_decide (visible_sigs steps = sigs) && '
   'match exec_all (init_state d []) steps with '
-  '| Some st => completed && bool_decide (ms_doc st = d2) && bool_decide (map action_sig (ms_undo st) = usigs) '
+  '| Some st => completed && (negb cmp_state || bool_decide (ms_doc st = d2)) '
+  '&& bool_decide (d_schema (ms_doc st) = d_schema d2) && bool_decide (map action_sig (ms_undo st) = usigs) '
   '| None => negb completed end')
 
 
-def events_of_run(run, enc, e_before_tables):
-  """Translate the recorded trace of the 'actions' phase into model events [(kind, coq term)], plus for every
-  crash point index its (event number, visible steps done, at_start).  Returns None if the bundle did something
-  the model has no event for (per-column flush, nested doc action inside a calc batch, multi-column calc)."""
-  return None
+def tie_plan(run):
+  """Translate the recorded trace of the 'actions' phase of a fault-free run into model events.
+  Returns None if the bundle did something the model has no event for (per-column flush of calc deltas, a doc action
+  applied from inside a calc batch, a calc batch over several columns); otherwise a dict with
+    events : [('doc', name, args) | ('calc', table, col, [(row, value)])]
+    where  : {engine crash point index: (event number, visible model steps already done, at_start)}
+    tables : table ids the events touch."""
+  events, where, tables = [], {}, []
+  cur = None            # open calc batch: [table, col, cells]
+  cur_doc = None
+  j = 0
+  def touch(t):
+    if t not in tables:
+      tables.append(t)
+  for (idx, name, doc, phase, det) in run.events:
+    if phase != 'actions':
+      break
+    if doc is not None:
+      if cur is not None:
+        return None                      # doc action inside a calc batch
+      if doc != cur_doc:
+        d = [x for x in run.docs if x['serial'] == doc][0]
+        events.append(('doc', d['name'], d['args']))
+        for t in RM.tables_of_action(d['name'], d['args']):
+          touch(t)
+        cur_doc, j = doc, 0
+        where[idx] = (len(events) - 1, 0, True)
+        continue
+      where[idx] = (len(events) - 1, j, False)
+      if name in ('undo.insert', 'undo.pop', 'undo.reappend'):
+        return None
+      if modelled_point(name, det):
+        j += 1
+      continue
+    cur_doc = None
+    if name == 'ua-end':
+      if cur is not None:
+        return None
+      where[idx] = (len(events), 0, True)
+    elif name == 'set':
+      t, c, r, v, private = det
+      if private or c.startswith('#') or c == 'id':
+        where[idx] = (len(events), 0, True) if cur is None else (len(events), len(cur[2]), False)
+        continue
+      if cur is None:
+        cur = [t, c, []]
+        touch(t)
+      elif (cur[0], cur[1]) != (t, c):
+        return None
+      where[idx] = (len(events), len(cur[2]), False)
+      cur[2].append((r, v))
+    elif name == 'sum:add_changes':
+      if cur is None or (det[0], det[1]) != (cur[0], cur[1]):
+        return None
+      where[idx] = (len(events), len(cur[2]), False)
+      events.append(('calc', cur[0], cur[1], cur[2]))
+      cur = None
+    else:
+      return None                        # flush_calc_changes_for_column etc.
+  if cur is not None:
+    return None
+  return {'events': events, 'where': where, 'tables': tables}
+
+
+def modelled_point(name, det):
+  if name in ('set', 'copy', 'clear'):
+    return det[1] == 'id' or not (det[-1] or det[1].startswith('#'))
+  return True
+
+
+def enc_events(enc, events):
+  out = []
+  for ev in events:
+    if ev[0] == 'doc':
+      out.append('(EDoc %s)' % enc.action(ev[1], ev[2]))
+    else:
+      out.append('(ECalc %s %s %s)' % (core.zlit(enc.name(ev[1])), core.zlit(enc.name(ev[2])),
+                                       core.coq_list(['(%s, %s)' % (core.zlit(r), core.zlit(enc.val(v)))
+                                                      for r, v in ev[3]])))
+  return core.coq_list(out)
+
+
+ROLLBACK_TIE_CHECK = (
+  'fun c : doc * (Z -> list Z) * list event * nat * nat * bool * bool * bool => '
+  'let \'(d, ord, es, i, j, at_start, restored, rollback_ok) := c in '
+  'let st0 := init_state d [] in '
+  'match run_until_crash ord st0 es (crash_index ord st0 es i j at_start) with '
+  '| Crashed st _ _ => match rollback ord 0 st with '
+  '    | Some d2 => rollback_ok && Bool.eqb (bool_decide (d2 = d)) restored '
+  '    | None => negb rollback_ok end '
+  '| Finished _ => false end')
 
 
 # ---------------------------------------------------------------------------------------------------------------
@@ -374,7 +477,24 @@ def sample_points(ctx, run, limit):
 
 def check_fault_run(ctx, log, bundle, base, idx, stats):
   """Rebuild the document, inject the fault before step idx, evaluate the C04 oracle."""
-  run = run_bundle(LoggedDoc(log), bundle, fault_at=idx)
+  ld = LoggedDoc(log)
+  plan = getattr(base, 'plan', None)
+  tie = None
+  if plan is not None and idx in plan['where'] and ctx is not None and getattr(ctx, '_c04_tie_budget', 0) > 0:
+    enc = RM.Enc()
+    tie = {'enc': enc, 'd0': enc.doc(ld.e, plan['tables']), 'ord': enc.ord(ld.e, plan['tables'])}
+  run = run_bundle(ld, bundle, fault_at=idx,
+                   on_fail=(lambda e: (enc_events(tie['enc'], plan['events']), tie['enc'].doc(e, plan['tables'])))
+                   if tie is not None else None)
+  if tie is not None and run.raised is not None:
+    es, after = run.on_fail
+    i, j, at_start = plan['where'][idx]
+    rollback_ok = isinstance(run.raised, RI.InjectedFault)
+    term = '(%s, %s, %s, %d%%nat, %d%%nat, %s, %s, %s)' % (
+      tie['d0'], tie['ord'], es, i, j, core.boollit(at_start), core.boollit(after == tie['d0']),
+      core.boollit(rollback_ok))
+    ctx._c04_tie_budget -= 1
+    ctx._c04_tie_cases.append((term, 'bundle %s fault before step %d' % (json.dumps(bundle, default=repr)[:200], idx)))
   loc = locate(base, idx)
   key = (json.dumps(log, default=repr), json.dumps(bundle, default=repr), idx)
   kind_hist = '%s@%s' % (loc['doc'] or loc['phase'], loc['point'])
@@ -412,7 +532,7 @@ def natural_failure(ctx, log, bundle, stats):
   # the crash point is the end of the recorded trace: inside the last doc action if that one did not complete
   loc = {'index': run.count, 'point': 'raise', 'phase': 'actions', 'doc': None, 'muts': 0, 'rebuilds': 0, 'undos': 0,
          'total_undos': 0, 'calc_cells': [(det[0], det[1]) for (j, n, dc, ph, det) in run.events
-                                         if dc is None and n == 'set'],
+                                         if dc is None and n == 'set' and not det[4]],
          'done_docs': [d['name'] for d in run.docs if d['completed']],
          'mutations_before': muts}
   if run.docs and not run.docs[-1]['completed'] and run.docs[-1]['phase'] == 'actions':
@@ -514,7 +634,7 @@ def correspond(ctx):
     ctx._c04_runs.append((copy.deepcopy(ld.log), copy.deepcopy(bundle), base))
   ctx.log('tie: %d doc actions recorded (%s)' % (len(tc.cases), dict(tc.per_kind)))
   ctx.extra['tie_doc_actions'] = dict(tc.per_kind)
-  bad = ctx.run_cases('docsteps', RM.IMPORTS, DOC_TIE_CHECK, [c for c, _ in tc.cases], shard=60,
+  bad = ctx.run_cases('docsteps', RM.IMPORTS, DOC_TIE_CHECK, [c for c, _ in tc.cases], shard=30,
                       extra_defs=RM.EXTRA_DEFS, timeout=600)
   for i in bad[:8]:
     ctx.broken('correspondence:micro-step order / state / undo of a doc action differs from Model/Rollback.v',
@@ -524,6 +644,8 @@ def correspond(ctx):
 
 def search(ctx):
   stats = collections.Counter()
+  ctx._c04_tie_budget = ctx.n(60, 600)
+  ctx._c04_tie_cases = []
   runs = getattr(ctx, '_c04_runs', None)
   if runs is None:
     correspond_runs = []
@@ -533,6 +655,9 @@ def search(ctx):
   per_bundle = ctx.n(10, 10 ** 9)
   seen_kinds = collections.Counter()
   for log, bundle, base in runs:
+    base.plan = tie_plan(base) if base.raised is None else None
+    stats['bundles'] += 1
+    stats['bundles-with-model-events-only'] += 1 if base.plan is not None else 0
     if base.raised is not None:
       v = natural_failure(ctx, log, bundle, stats)
       if v is not None:
@@ -563,6 +688,14 @@ def search(ctx):
     ctx.notes.append('shared history run not available: %r' % (ex,))
   ctx.extra['fault_runs'] = dict(stats)
   ctx.log('fault enumeration: %s' % dict(stats))
+  # tie, part 2: the model predicts for each of these fault runs whether the rollback restores the document
+  cases = ctx._c04_tie_cases
+  ctx.extra['tie_rollback_predictions'] = len(cases)
+  bad = ctx.run_cases('rollback', RM.IMPORTS, ROLLBACK_TIE_CHECK, [c for c, _ in cases], shard=25,
+                      extra_defs=RM.EXTRA_DEFS, timeout=600)
+  for i in bad[:8]:
+    ctx.broken('correspondence:Model/Rollback.v does not predict the outcome of the engine\'s rollback', cases[i][1])
+  ctx.extra['tie_rollback_mismatches'] = len(bad)
 
 
 def report(ctx, v, seen_kinds):
